@@ -18,7 +18,7 @@ import (
 
 func init() { registry["C15"] = c15Units }
 
-var c15Alphabet = []string{"a", "b", "ab", "a:b", "a-b", "a.b", "a*", "*", "*:*", "a(b", "a[b", "a+", "a$", "^a", "a|b", `a\b`, "a b", "a-*-*", "a?"}
+var c15Alphabet = []string{"a", "b", "ab", "a:b", "a-b", "a.b", "a*", "*", "*:*", "a(b", "a[b", "a+", "a$", "^a", "a|b", `a\b`, "a b", "a-*-*", "a?", "a*a", "ab*b"}
 
 // refMatch: only '*' is special; greedy, leftmost (each '*' takes as much as it can while the
 // rest still matches). Returns the matched substrings.
